@@ -68,6 +68,14 @@ EXTRA = [
     'WITH t2 AS (SELECT * FROM int1.t1) SELECT * FROM t2 JOIN int1.t3 ON t2.id = t3.id JOIN mindsdb.pred',
     'SELECT * FROM t2 JOIN int2.t2 AS u ON t2.id = u.id',
     'SELECT * FROM mindsdb.t2 JOIN int1.t1 ON t2.id = t1.id',
+    # DML / DDL whose source select cannot be planned (a model read without WHERE), and unqualified tables afterwards
+    'INSERT INTO int1.t3 (id) SELECT * FROM mindsdb.pred',
+    'CREATE TABLE int1.n (SELECT * FROM mindsdb.pred)',
+    'UPDATE int1.t1 SET a = 1 FROM (SELECT * FROM mindsdb.pred) AS s WHERE t1.id = s.id',
+    'INSERT INTO int2.t2 (id) SELECT id FROM nowhere.x JOIN int1.t1',
+    'SELECT * FROM tbl2',
+    'SELECT * FROM tbl2 JOIN int2.t2 ON tbl2.id = t2.id',
+    'SELECT * FROM tbl2 WHERE id IN (SELECT id FROM int1.t1)',
 ]
 
 
